@@ -215,6 +215,23 @@ def relations(cell, k, x1, x2, dense, fails, feats, seed):
             fails.check_close("lazy-diagonal-cross", lazy_diag, cross.diagonal(dim1=-1, dim2=-2), 1e-12, 1e-12,
                               "K(x1, x2).diagonal() of the lazy tensor != diagonal of the dense cross-covariance (x1 != x2)")
             ops += 1
+        with fails.guard("diag-cross-batch"):
+            # diag=True between x1 and a second point set that carries a batch dimension x1 lacks - of size n (as many batch members as
+            # points: a b x n table of diagonals has the shape of an n x n matrix) and of size 2
+            if kern in ("rbfgrad", "rbfgrad_ard"):
+                raise util.Skip()   # the derivative kernels document diag=True for x1 == x2 only
+            n1_ = x1.shape[-2]
+            B0 = torch.broadcast_shapes(tuple(cell["kb"]), x1.shape[:-2])   # the new batch dimension goes in FRONT of every existing one
+            base = (x1 if kern not in DISCRETE else x1.flip(-2)).expand(*B0, *x1.shape[-2:])
+            for bsz in (n1_, 2):
+                shift = torch.arange(1, bsz + 1, dtype=F64).view(bsz, *([1] * base.dim())) * (0.21 if kern not in DISCRETE else 0.0)
+                x2c = base.unsqueeze(0) + shift       # bsz x [broadcast batch] x n x d
+                if kern in DISCRETE:
+                    x2c = x2c.expand(bsz, *base.shape).to(x1.dtype)
+                with S.lazily_evaluate_kernels(False):
+                    want = k(x1, x2c).to_dense().diagonal(dim1=-1, dim2=-2)
+                fails.check_close("diag-cross-batch", k(x1, x2c, diag=True), want, 1e-12, 1e-12, f"k(x1, x2 with an extra batch of {bsz}, diag=True)")
+                ops += 1
         with fails.guard("stacked-blocks"):
             try:
                 B = torch.broadcast_shapes(x1.shape[:-2], x2.shape[:-2])
@@ -251,6 +268,14 @@ def relations(cell, k, x1, x2, dense, fails, feats, seed):
             nbd = dense.dim() - 2
             rep = k(x1, x2).repeat(*([1] * nbd), 2, 3)
             fails.check_close("repeat", rep.to_dense(), dense.repeat(*([1] * nbd), 2, 3), 1e-12, 1e-12, "matrix dims repeated")
+            # K(X, X) built from ONE tensor (k(x) and k(x, x)), rows and columns repeated a different number of times
+            with S.lazily_evaluate_kernels(False):
+                sq = k(x1, x1).to_dense()
+            nbs = sq.dim() - 2
+            for r_, c_ in ((1, 2), (2, 1), (3, 2)):
+                fails.check_close("repeat", k(x1).repeat(*([1] * nbs), r_, c_).to_dense(), sq.repeat(*([1] * nbs), r_, c_), 1e-12, 1e-12, f"k(x).repeat(.., {r_}, {c_})")
+                fails.check_close("repeat", k(x1, x1).repeat(*([1] * nbs), r_, c_).to_dense(), sq.repeat(*([1] * nbs), r_, c_), 1e-12, 1e-12, f"k(x, x).repeat(.., {r_}, {c_})")
+            ops += 6
             rep = k(x1, x2).repeat(2, *([1] * nbd), 1, 1)
             fails.check_close("repeat", rep.to_dense(), dense.repeat(2, *([1] * nbd), 1, 1), 1e-12, 1e-12, "new leading batch dim")
             ops += 2
